@@ -1,0 +1,19 @@
+//go:build verif
+
+package segmenter
+
+// Contracts for contract-based deductive verification (comment-only; see /verif/DESIGN.md).
+//
+// ---------------------------------------------------------------------------------------------
+// Properties C06 / C03: the iterators report exactly the positions flagged in the attribute array: consecutive,
+// non-empty segments [lastBreak, pos) whose end is the next index after lastBreak carrying the flag.
+//@ spec segOK(s *Segmenter) bool = len(s.attributes) == len(s.text)+1
+//@ func attributeIterator.next C06 C03
+//@   mode int
+//@   requires iter.src != nil && segOK(iter.src) && 0 <= iter.pos && iter.pos <= 1<<40
+//@   ensures [start] iter.lastBreak == old(iter.pos)
+//@   ensures [segment] implies(result, old(iter.pos) < iter.pos && iter.pos <= len(iter.src.text) && iter.src.attributes[iter.pos]&iter.flag != 0)
+//@   ensures [next-flagged] implies(result, forall(k, old(iter.pos)+1, iter.pos, iter.src.attributes[k]&iter.flag == 0))
+//@   ensures [exhausted] implies(!result, iter.pos > len(iter.src.text) && forall(k, old(iter.pos)+1, len(iter.src.text)+1, iter.src.attributes[k]&iter.flag == 0))
+//@   modifies iter.pos; iter.lastBreak
+//@   loop 1 invariant [scan] old(iter.pos) < iter.pos && iter.lastBreak == old(iter.pos) && forall(k, old(iter.pos)+1, iter.pos, iter.src.attributes[k]&iter.flag == 0)
